@@ -88,16 +88,66 @@ def gen_opts(rng, ds):
     return opts, cls
 
 
-def run_case(ctx, rng, ci):
+def make_long(rng):
+    """A long series: 25-45 consecutive days with 1, 2 or 4 runs a day (one or two files, the second with gaps)."""
+    day0 = rng.choice([15340, 15675, 16430, 10950, 19700]) + rng.randint(0, 40)
+    ndays = rng.randint(25, 45)
+    hours = rng.choice([[0, 12], [0, 12], [0, 6, 12, 18], [0]])
+    times = [(day0 + d_) * 86400 + h * 3600 for d_ in range(ndays) for h in hours]
+    locs = rng.sample(gen.LOC_POOL, rng.randint(1, 2))
+    inputs = []
+    truth = {}
+    for k in range(rng.choice([1, 2])):
+        ts = times if k == 0 else [t for t in times if rng.random() < 0.9]
+        inputs.append(gen.make_input(rng, "in%d.txt" % k, "text", ts, [0, 12], locs, miss=rng.choice([0.0, 0.1]), truth=truth))
+    return {"inputs": inputs, "clim": None}
+
+
+def gen_opts_long(rng, ds):
+    """Long -d lists / ranges (the days of the file partly requested), possibly with -tod."""
+    times, leads, locs = refmodel.common_dims(ds)
+    days = sorted(set(refmodel.date_of(t) for t in times))
+    n = rng.randint(min(20, len(days) - 2), len(days) - 2)
+    i0 = rng.randint(1, len(days) - n - 1) if len(days) - n - 1 >= 1 else 0
+    block = days[i0:i0 + n]
+    if rng.random() < 0.4:
+        block = [d_ for d_ in block if rng.random() < 0.9]      # a long list with holes
+    opts, cls = {"dates": block}, {"dates": "long"}
+    if rng.random() < 0.4:
+        hrs = sorted(set((t % 86400) // 3600 for t in times))
+        opts["tods"] = sorted(rng.sample(hrs, rng.randint(1, len(hrs))))
+        cls["tods"] = "present"
+    if rng.random() < 0.2:
+        opts["leadtimes"] = [rng.choice(leads)]
+        cls["leadtimes"] = "present"
+    return opts, cls
+
+
+def run_case(ctx, rng, ci, long=False):
     import numpy as np
+    global gen_opts
+    if long:
+        ds = make_long(rng)
+        ctx.count("long_series_cases")
+        saved = gen_opts
+        gen_opts = gen_opts_long
+        try:
+            return _run_case(ctx, rng, ci, ds, reps=3)
+        finally:
+            gen_opts = saved
     ds = gen.make_dataset(rng, n_inputs=rng.choice([1, 2, 3]), clim=rng.random() < 0.25, miss=rng.choice([0.0, 0.1, 0.25]),
                           max_t=6, max_l=5, max_s=5, hours=rng.choice([None, [0, 6, 12, 18], [0, 12]]))
+    return _run_case(ctx, rng, ci, ds)
+
+
+def _run_case(ctx, rng, ci, ds, reps=7):
+    import numpy as np
     d = os.path.join(ctx.workdir, "c%d" % ci)
     os.makedirs(d, exist_ok=True)
     paths, cpath = gen.materialize(ds, d, rng if rng.random() < 0.5 else None)
     F = len(ds["inputs"])
     cflag = ["-c", cpath] if cpath else []
-    for _ in range(7):
+    for _ in range(reps):
         opts, cls = gen_opts(rng, ds)
         case = {"ds": ds, "opts": opts}
         times, leads, locs = refmodel.common_dims(ds, opts)
@@ -226,7 +276,7 @@ def run_case(ctx, rng, ci):
 def run_shard(desc, ctx):
     rng = random.Random("C03-%s-%s" % (desc["seed"], desc["k"]))
     for ci in range(desc["n"]):
-        run_case(ctx, rng, ci)
+        run_case(ctx, rng, ci, long=(ci % 10 == 9))
 
 
 def replay(case, ctx):
